@@ -64,20 +64,20 @@ func (l *vlog) takeDropped() []string {
 	l.dropped = nil
 	return d
 }
-func (l *vlog) DPanic(a ...any)            {}
-func (l *vlog) DPanicf(string, ...any)     {}
-func (l *vlog) Debug(a ...any)             {}
-func (l *vlog) Debugf(string, ...any)      {}
-func (l *vlog) Error(a ...any)             {}
-func (l *vlog) Errorf(string, ...any)      {}
-func (l *vlog) Fatal(a ...any)             { panic(fmt.Sprint(a...)) }
-func (l *vlog) Fatalf(f string, a ...any)  { panic(fmt.Sprintf(f, a...)) }
-func (l *vlog) Info(a ...any)              {}
-func (l *vlog) Infof(string, ...any)       {}
-func (l *vlog) Panic(a ...any)             { panic(fmt.Sprint(a...)) }
-func (l *vlog) Panicf(f string, a ...any)  { panic(fmt.Sprintf(f, a...)) }
-func (l *vlog) Warn(a ...any)              { l.rec(fmt.Sprint(a...)) }
-func (l *vlog) Warnf(f string, a ...any)   { l.rec(fmt.Sprintf(f, a...)) }
+func (l *vlog) DPanic(a ...any)           {}
+func (l *vlog) DPanicf(string, ...any)    {}
+func (l *vlog) Debug(a ...any)            {}
+func (l *vlog) Debugf(string, ...any)     {}
+func (l *vlog) Error(a ...any)            {}
+func (l *vlog) Errorf(string, ...any)     {}
+func (l *vlog) Fatal(a ...any)            { panic(fmt.Sprint(a...)) }
+func (l *vlog) Fatalf(f string, a ...any) { panic(fmt.Sprintf(f, a...)) }
+func (l *vlog) Info(a ...any)             {}
+func (l *vlog) Infof(string, ...any)      {}
+func (l *vlog) Panic(a ...any)            { panic(fmt.Sprint(a...)) }
+func (l *vlog) Panicf(f string, a ...any) { panic(fmt.Sprintf(f, a...)) }
+func (l *vlog) Warn(a ...any)             { l.rec(fmt.Sprint(a...)) }
+func (l *vlog) Warnf(f string, a ...any)  { l.rec(fmt.Sprintf(f, a...)) }
 
 // ---------------------------------------------------------------- queue
 
@@ -284,8 +284,8 @@ func verifLoop(p vbase.Params, r *vbase.Result) {
 		var handlers []*mHandler
 		var log []handled
 		var prog []string
-		pending := []mEvent{}            // reference queue
-		waiting := map[int][]mEvent{}    // reference deferred, by awaited type
+		pending := []mEvent{}         // reference queue
+		waiting := map[int][]mEvent{} // reference deferred, by awaited type
 		var expectDropped []string
 		nextEv := 1
 		nontrivial := false
@@ -486,7 +486,7 @@ type qIn struct {
 }
 
 func verifConcurrent(p vbase.Params, r *vbase.Result) {
-	r.Rule = "P in {2,4,16} goroutines AddEvent uniquely numbered events while Run consumes (plus a ticker), below capacity and with deliberate overflow, under the race detector: handled multiset = added multiset " +
+	r.Rule = "P in {2,4,16} goroutines AddEvent uniquely numbered events while Run consumes (every second run with a 1 ms ticker sharing the queue), below capacity and with deliberate overflow, under the race detector: handled multiset = added multiset " +
 		"(below capacity), per-producer order, real-time order (a returned before b was called => a handled first), overflow: reported-dropped set = never-handled set and every dropped event is older than " +
 		"everything handled after it; short histories additionally checked with porcupine against a FIFO model; non-trivial: >=2 producers; distinct: observed handle order"
 	reps := p.N(800, 20000)
@@ -534,7 +534,12 @@ func verifConcurrent(p vbase.Params, r *vbase.Result) {
 			el.Run(ctx)
 			close(done)
 		}()
-		if !overflow {
+		// a ticker shares the queue with the producers: its events take slots too, so with a ticker "below capacity" is only
+		// nominal (a consumer that is not scheduled for a few milliseconds lets tick events pile up). Every second
+		// non-overflow run has no ticker and keeps the strict claim; the others are judged by the overflow rules if anything
+		// was reported dropped.
+		withTicker := !overflow && i%2 == 0
+		if withTicker {
 			el.AddTicker(time.Millisecond, func(time.Time) any { return evC{1} })
 		}
 		var wg sync.WaitGroup
@@ -557,6 +562,13 @@ func verifConcurrent(p vbase.Params, r *vbase.Result) {
 			close(consumerGate)
 		}
 		// quiescence: everything added has either been handled or reported dropped (logical condition), with a watchdog
+		// tick events can be dropped too; the accounting below is about the producers' events
+		isProducerEvent := map[string]bool{}
+		for pr := 0; pr < P; pr++ {
+			for k := 0; k < per; k++ {
+				isProducerEvent[fmt.Sprint(evN{pr, k})] = true
+			}
+		}
 		total := P * per
 		deadline := time.Now().Add(120 * time.Second)
 		for {
@@ -564,7 +576,12 @@ func verifConcurrent(p vbase.Params, r *vbase.Result) {
 			nh := len(order)
 			hmu.Unlock()
 			lg.mu.Lock()
-			nd := len(lg.dropped)
+			nd := 0
+			for _, d := range lg.dropped {
+				if isProducerEvent[d] {
+					nd++
+				}
+			}
 			lg.mu.Unlock()
 			if nh+nd >= total || time.Now().After(deadline) {
 				break
@@ -577,7 +594,13 @@ func verifConcurrent(p vbase.Params, r *vbase.Result) {
 		got := append([]evN(nil), order...)
 		gotT := append([]int64(nil), orderT...)
 		hmu.Unlock()
-		dropped := lg.takeDropped()
+		droppedAll := lg.takeDropped()
+		var dropped []string
+		for _, d := range droppedAll {
+			if isProducerEvent[d] {
+				dropped = append(dropped, d)
+			}
+		}
 		rep := map[string]any{"case": i, "shard": p.Shard, "producers": P, "per": per, "capacity": capacity, "overflow": overflow}
 		sigOrder := fmt.Sprint(got)
 		r.Eval(P >= 2, sigOrder)
@@ -602,6 +625,10 @@ func verifConcurrent(p vbase.Params, r *vbase.Result) {
 		if len(got)+len(dropped) < total {
 			r.Inconclusive(fmt.Sprintf("watchdog: %d of %d events neither handled nor reported dropped after 20s", total-len(got)-len(dropped), total))
 			continue
+		}
+		if withTicker && len(dropped) > 0 {
+			r.Obs("runs_with_ticker_in_which_tick_events_filled_the_queue", 1)
+			overflow = true
 		}
 		if !overflow {
 			if len(got) != total {
